@@ -1998,8 +1998,12 @@ static int64_t eval_raw(Node *node, char ***label) {
     }
     return eval2(node->lhs, label);
   case ND_ADDR:
+    if (!label)
+      error_tok(node->tok, "not a compile-time constant");
     return eval_rval(node->lhs, label);
   case ND_LABEL_VAL:
+    if (!label)
+      error_tok(node->tok, "not a compile-time constant");
     *label = &node->unique_label;
     return 0;
   case ND_MEMBER:
